@@ -255,6 +255,19 @@ class Gen:
             lambda: "(def(%s, $1 + 1) -> %s.select(%s($)).where(%s($) > %s))" % (f, self.list_lit(env, 1), f, f, i()),
             lambda: "(let(%s => %s) -> def(%s, let(%s => $1) -> $%s + $%s) -> [%s(%s), $%s])" % (x, i(), f, y, x, y, f, i(), y),
             lambda: "(let(1, 2) -> [$, $1, $2, let(9) -> $, %s.select($).toList()])" % self.list_lit(env, 1),
+            # one closure invoked several times with different numbers / kinds of arguments
+            lambda: "(def(%s, [$1, $2]) -> [%s(%s, %s), %s(%s), %s()])" % (f, f, i(), i(), f, i(), f),
+            lambda: "(def(%s, [$1, $k]) -> [%s(%s, k => %s), %s(%s)])" % (f, f, i(), i(), f, i()),
+            lambda: "(def(%s, [$, $2]) -> [%s(%s), %s(%s, %s), %s(%s)])" % (f, f, i(), f, i(), i(), f, i()),
+            # recursion that reads its own argument AFTER the inner call returned
+            lambda: "(def(%s, switch($1 <= 0 => 0, true => %s($1 - 1) + $1)) -> %s(%d))" % (f, f, f, rng.randrange(0, 6)),
+            lambda: "(def(%s, switch($ <= 1 => 1, true => %s($ - 1) * $)) -> %s(%d))" % (f, f, f, rng.randrange(0, 6)),
+            lambda: "(def(%s, switch($1 <= 0 => [], true => %s($1 - 1) + [$1, $2])) -> %s(%d, %s))" % (f, f, f, rng.randrange(0, 4), i()),
+            # null bindings shadow outer non-null ones
+            lambda: "(let(%s => %s) -> let(%s => null) -> [$%s, $%s = null])" % (x, i(), x, x, x),
+            lambda: "[null, %s, null].select([$, $ = null])" % i(),
+            lambda: "(with(%s) -> with(null) -> [$, $1])" % i(),
+            lambda: "(def(%s, $1) -> let(%s => 5) -> [%s(null), %s($%s)])" % (f, x, f, f, x),
         ]
         return rng.choice(shapes)()
 
